@@ -776,6 +776,41 @@ static void redefined_type(vh_rng* r) {
   del_root(T);
 }
 
+/* ---------- a run-time type with as many instances as a type may have ----------
+** 256 (CELLO_MAX_INSTANCES) instances (and one or two fewer): the type object holds them all and its end marker, the last
+** instance is found, a class it does not implement is not, objects of it carry it and are usable over size(type). */
+static void largest_type(vh_rng* r) {
+  enum { MAXI = 256 };      /* CELLO_MAX_INSTANCES, private to Type.c */
+  static char pool[MAXI][sizeof(struct Header) + 2 * sizeof(var)];
+  int n = MAXI - (int)vh_below(r, 3);
+  var args = new_raw(Tuple);
+  char nm[32]; snprintf(nm, sizeof nm, "Large%d", n);
+  char* name = strdup(nm);
+  push(args, $S(name)); push(args, $I(24));
+  for (int i = 0; i < n; i++) {
+    memset(pool[i], 0, sizeof pool[i]);
+    var inst = header_init(pool[i], i == n - 1 ? Hash : i == n - 2 ? Len : Show, AllocStatic);
+    if (i == n - 1) { ((void**)inst)[0] = (void*)rdA_hash; }
+    if (i == n - 2) { ((void**)inst)[0] = (void*)rdA_len; }
+    push(args, inst);
+  }
+  var exc = NULL; var T = NULL;
+  VH_CATCH(T = new_root_with(Type, args), exc);
+  del_raw(args);
+  vh_evals(6);
+  if (exc) { vh_violation(K("runtime-type-with-the-most-instances-refused", "new"), "a Type with %d instances (the maximum is %d) raised %s", n, MAXI, vh_exc_name(exc)); return; }
+  var x = new_raw_with(T, tuple());
+  if (type_of(x) != T || size(T) != 24) { vh_violation(K("wrong-type", "type with the most instances"), "object of a type with %d instances: type_of %s, size %zu", n, type_of(x) == T ? "right" : "wrong", size(T)); }
+  memset(x, 0x33, 24);
+  if (hash(x) != 1111 || len(x) != 1) { vh_violation(K("runtime-type-last-instance-not-found", "new"), "type with %d instances: hash gives %" PRIu64 " (its last instance says 1111), len %zu (1)", n, hash(x), len(x)); }
+  if (type_implements(T, Cmp) || type_instance(T, Iter) != NULL || !type_implements(T, Show) || !type_implements(T, Hash)) {
+    vh_violation(K("runtime-type-class-membership-wrong", "new"), "type with %d instances (Show x%d, Len, Hash): implements Cmp %d, Iter instance %p, Show %d, Hash %d", n, n - 2, (int)type_implements(T, Cmp), type_instance(T, Iter), (int)type_implements(T, Show), (int)type_implements(T, Hash));
+  }
+  del_raw(x);
+  del_root(T);
+  if (n == MAXI) { vh_count("runtime_types_with_the_maximum_number_of_instances"); }
+}
+
 /* ---------- an in-place resize to a smaller, non-zero length ----------
 ** The elements that stay are the ones that were there (never released, still of their type, still holding what they
 ** held); the ones that go are released once (ASan sees a release of a survivor's buffer, or a second release). */
@@ -814,6 +849,7 @@ static void case_random(vh_rng* r, long index) {
   stack_object_frame((int)(index % 3));
   mutual_owners_released_once(r);
   redefined_type(r);
+  largest_type(r);
   shrink_keeps_survivors(r); shrink_keeps_survivors(r);
   if (index % 4 == 0) { run_fresh_thread(); }
   vh_nontrivial();
